@@ -701,7 +701,9 @@ int ILLsymboltab_uname (
 	{
 		i = 0;
 		sprintf (prefix, "%s", try_prefix[0]);
-		numlen = (log10 ((double) (symtab->tablesize - 1) * 10)) + 1;
+		/* digits needed for a suffix below tablesize (log10 of 0 is -inf) */
+		numlen = (symtab->tablesize > 1) ?
+			(int) (log10 ((double) (symtab->tablesize - 1) * 10)) + 1 : 2;
 		while (!found)
 		{
 			ILL_FAILfalse (i <= nvars, "something wrong in find_unique_name");
